@@ -117,5 +117,41 @@ def run(ctx):
             up = any(o[0] == "call" and callee(o[2]).endswith("recver::SizeKnown::upgrade") for o in local_origins(b, rv[2][0]))
             ctx.ob("R2", "%s|DataRcvd only when everything was received" % b.short, g and up, b.where(line),
                    "state := DataRcvd(SizeKnown::upgrade()) on the true edge of is_all_rcvd(): guard %s, payload from upgrade(): %s" % (g, up))
+    # ---------------------------------------------------------------- R3: a lost FIN is re-offered
+    ctx.rule("R3", "FIN retransmission: DataSentSender.fin_state returns from Lost to Sent only where an end-of-stream frame is "
+                   "produced (the picked item is marked is_eos = true); it becomes Lost when a FIN-bearing frame is lost and Rcvd only when one is acknowledged")
+    fw = [(b, i, j, p_, rv, line) for (b, i, j, p_, rv, line) in field_writes(prog, "DataSentSender", "fin_state")]
+    n3 = 0
+    for (b, i, j, p_, rv, line) in fw:
+        src = rv
+        if rv[0] == "use" and op_place(rv[1]) is not None and len(op_place(rv[1])) == 1:
+            for (bb, jj, rv2) in b.defs_of(op_place(rv[1])[0]):
+                if jj != "term" and rv2[0] == "agg":
+                    src = rv2
+        if src[0] != "agg" or src[1].get("k") != "adt":
+            continue
+        variant = src[1]["variant"]
+        ctx.touch(b)
+        n3 += 1
+        if variant == "Sent":
+            # every path from the write to a return builds a tuple whose last element is the constant `true`
+            good = set()
+            for (i2, j2, p2, rv2, l2) in b.assigns():
+                if rv2[0] == "agg" and rv2[1]["k"] == "tuple" and rv2[2] and const_int(rv2[2][-1]) == 1 and op_const(rv2[2][-1]).get("ty") == "bool":
+                    good.add(i2)
+            r = b.reachable_from(i, avoid=good - {i})
+            ok = bool(good) and (i in good or not (r & set(b.return_blocks())))
+            ctx.ob("R3", "%s|fin_state Lost->Sent only with an end-of-stream item" % b.short, ok, b.where(line),
+                   "fin_state := Sent at bb%d; every path from there returns an item with is_eos == true: %s — clearing the "
+                   "'FIN lost' mark while retransmitting data that does not carry the FIN means the FIN is never sent again: "
+                   "the peer never sees end-of-stream and shutdown() never completes" % (i, ok))
+        elif variant == "Rcvd":
+            g = any(b.dominates(c, i) and i not in b.reachable_from(list((outcome_edges(b, c) or {"err": set()})["err"]), avoid={c})
+                    for c in call_blocks(b, r"StreamFrame::is_fin$"))
+            ctx.ob("R3", "%s|fin_state := Rcvd only for an acknowledged FIN frame" % b.short, g, b.where(line), "guarded by frame.is_fin(): %s" % g)
+        elif variant == "Lost":
+            g = any(b.dominates(c, i) for c in call_blocks(b, r"StreamFrame::is_fin$"))
+            ctx.ob("R3", "%s|fin_state := Lost only for a lost FIN frame" % b.short, g, b.where(line), "guarded by frame.is_fin(): %s" % g)
+    ctx.floor("R3", "fin_state transition sites", n3, 3)
     # who else writes the final states
     ctx.assume("BufMap::may_loss / ack_rcvd re-colour exactly the given range (value-level, C09)")
